@@ -503,6 +503,8 @@ func checkC20(c *Check) {
 	// R20.8 client typestate
 	ruleClientTypestate(c, p, handler, "Writer", "compress")
 	ruleFramesFinished(c, p, handler)
+	ruleChunkReadEOF(c, p, handler, "compress")
+	c.RuleDoc["R20.15"] = "a chunked read loop in the command treats io.EOF of io.ReadFull as the end of the input, not as a failure"
 	ruleWholeInputCopied(c, p, handler, "Writer", "compress")
 	ruleNamesUnchanged(c, p, handler, "compress")
 	if uh0 := handlerOf(unc); uh0 != nil {
@@ -1034,7 +1036,16 @@ func ruleFramesFinished(c *Check, p *Program, h *ssa.Function) {
 	}
 	// stores that put the Writer into a list of closers whose elements are closed by a loop
 	closerStores := map[ssa.Instruction]bool{}
-	allInstrs(h, func(in ssa.Instruction) {
+	var famInstrs []ssa.Instruction
+	for _, famFn := range lz4cFamily(h) {
+		allInstrs(famFn, func(in ssa.Instruction) { famInstrs = append(famInstrs, in) })
+	}
+	forFam := func(visit func(in ssa.Instruction)) {
+		for _, in := range famInstrs {
+			visit(in)
+		}
+	}
+	forFam(func(in ssa.Instruction) {
 		st, ok := in.(*ssa.Store)
 		if !ok {
 			return
@@ -1091,7 +1102,21 @@ func ruleFramesFinished(c *Check, p *Program, h *ssa.Function) {
 					continue
 				}
 				if r, isR := i.(*ssa.Return); isR {
-					exit |= cur
+					// what a caller continues with is the state of the returns that can report success
+					succ := true
+					if nr := len(r.Results); nr > 0 && isErrorType(r.Results[nr-1].Type()) {
+						if !mayBeNilErr(r.Results[nr-1], b) {
+							succ = false
+						}
+						for _, a := range atomsOfBlock(b) {
+							if a.Kind == "errnil" && !a.Val && a.V == r.Results[nr-1] {
+								succ = false
+							}
+						}
+					}
+					if succ {
+						exit |= cur
+					}
 					if top && cur&sOpen != 0 && len(r.Results) > 0 {
 						e := r.Results[len(r.Results)-1]
 						// with defer statements in the function the results travel through result cells
@@ -1457,5 +1482,73 @@ func ruleNamesUnchanged(c *Check, p *Program, h *ssa.Function, cmd string) {
 	}
 	if n < 2 {
 		c.Fail("R20.14", "lz4c."+cmd+"#open-sites", p.Pos(h.Pos()), "the input and output files of the "+cmd+" handler are opened in it", fmt.Sprintf("only %d os.Open/OpenFile/Create call(s) found", n))
+	}
+}
+
+// R20.15: where the command reads its input itself (io.ReadFull / io.ReadAtLeast
+// in a loop instead of io.Copy), the clean end of the input is not reported as a
+// failure: io.ReadFull returns io.EOF when the input ends on a chunk boundary,
+// so an error of such a read reaches a return only behind a test that has
+// excluded io.EOF. No instance on the current tree (lz4c copies with io.Copy).
+func ruleChunkReadEOF(c *Check, p *Program, h *ssa.Function, cmd string) {
+	n := 0
+	for _, g := range lz4cFamily(h) {
+		for _, ci := range callsIn(g) {
+			call, isCall := ci.(*ssa.Call)
+			if !isCall || !(calleeIs(ci, "io", "ReadFull") || calleeIs(ci, "io", "ReadAtLeast")) {
+				continue
+			}
+			n++
+			c.Sites++
+			bad := ""
+			seen := map[*ssa.BasicBlock]bool{}
+			var walk func(b *ssa.BasicBlock, from int)
+			walk = func(b *ssa.BasicBlock, from int) {
+				if from == 0 {
+					if seen[b] {
+						return
+					}
+					seen[b] = true
+				}
+				for _, in := range b.Instrs[from:] {
+					if r, isR := in.(*ssa.Return); isR && bad == "" {
+						for _, res := range r.Results {
+							if !isErrorType(res.Type()) {
+								continue
+							}
+							v := res
+							if ld, isL := v.(*ssa.UnOp); isL && ld.Op == token.MUL {
+								for _, j := range b.Instrs {
+									if st, isS := j.(*ssa.Store); isS && st.Addr == ld.X {
+										v = st.Val
+									}
+								}
+							}
+							if resultIndexOf(v, call) == 1 || derivesFromValue(v, call) {
+								bad = p.InstrPos(in)
+							}
+						}
+					}
+				}
+				ifi, isIf := b.Instrs[len(b.Instrs)-1].(*ssa.If)
+				for k, s := range b.Succs {
+					if isIf && len(b.Succs) == 2 {
+						a := atomOf(ifi.Cond, k == 0)
+						if a.Kind == "eofcmp" && a.Val {
+							continue // the end of the input is handled on this edge
+						}
+						if a.Kind == "errnil" && a.Val && resultIndexOf(a.V, call) == 1 {
+							continue // no error
+						}
+					}
+					walk(s, 0)
+				}
+			}
+			walk(call.Block(), idxOf(call)+1)
+			c.Cond(bad == "", "R20.15", fmt.Sprintf("lz4c.%s#chunk-read-eof#%d", cmd, n), p.InstrPos(ci), "an error of io.ReadFull is returned only where io.EOF has been excluded (the input may end exactly on a chunk boundary)", "every returning path lies behind an io.EOF test", "the return at "+bad+" can hand back io.EOF: an input whose length is a multiple of the chunk size ends the command with an error before the frame is closed")
+		}
+	}
+	if n == 0 {
+		c.OK("R20.15", "lz4c."+cmd+"#chunk-read-eof", p.Pos(h.Pos()), "the command does not read its input in chunks of its own (io.Copy does)", "no io.ReadFull / io.ReadAtLeast in the handler", false)
 	}
 }
